@@ -94,3 +94,18 @@ func verifFaultBytes(c *Conn, site string, b []byte) []byte {
 	}
 	return b
 }
+
+// VerifSessionTicket / VerifWithTicket let a harness look at and replace the opaque ticket inside a
+// cached client session (to present a tampered ticket as a client would).
+func VerifSessionTicket(cs *ClientSessionState) []byte { return append([]byte(nil), cs.sessionTicket...) }
+
+func VerifWithTicket(cs *ClientSessionState, ticket []byte) *ClientSessionState {
+	n := *cs
+	n.sessionTicket = append([]byte(nil), ticket...)
+	return &n
+}
+
+// VerifSessionInfo returns version, suite and SM3/any digest input (the master secret) of a cached session.
+func VerifSessionInfo(cs *ClientSessionState) (vers, suite uint16, masterSecret []byte) {
+	return cs.vers, cs.cipherSuite, append([]byte(nil), cs.masterSecret...)
+}
